@@ -156,6 +156,25 @@ fn observe_error(e: &darling::Error) -> (usize, Vec<ObsLeaf>) {
 /// Properties of the error value itself that C03 states: flattening twice changes nothing, and
 /// conversion to compiler diagnostics gives one diagnostic per leaf with the leaf's span.
 fn check_error_value(e: &darling::Error, leaves: &[ObsLeaf], out: &mut Vec<Failure>) {
+    // flatten twice, conversion to syn::Error: darling code; a panic in it is reported, not propagated
+    let mut inner: Vec<Failure> = Vec::new();
+    let r = {
+        let _g = InParse::enter();
+        catch_unwind(AssertUnwindSafe(|| check_error_value_unguarded(e, leaves, &mut inner)))
+    };
+    out.extend(inner);
+    if let Err(p) = r {
+        let what = match payload_outcome(p) {
+            Outcome::Panic(m) => m,
+            other => short(&other),
+        };
+        for rule in ["C03.R7", "C07.R1", "C02.R3"] {
+            out.push(fail(rule, format!("an operation on the returned error value (flatten twice / conversion to compiler diagnostics) panicked: {}", what)));
+        }
+    }
+}
+
+fn check_error_value_unguarded(e: &darling::Error, leaves: &[ObsLeaf], out: &mut Vec<Failure>) {
     let twice: Vec<(String, Option<Range>)> =
         e.clone().flatten().flatten().into_iter().map(|l| (l.to_string(), l.explicit_span().map(world::range_of))).collect();
     let once: Vec<(String, Option<Range>)> = leaves.iter().map(|l| (l.text.clone(), l.span)).collect();
@@ -230,8 +249,19 @@ fn execute_elem(sc: &Scenario, di: &syn::DeriveInput) -> Result<(Outcome, Option
         Ok(None) => return Err(format!("unknown element receiver {} for {:?}", sc.receiver, sc.entry)),
         Ok(Some(Ok(v))) => (Outcome::Ok(Some(v)), None),
         Ok(Some(Err(e))) => {
-            let (len, leaves) = observe_error(&e);
-            (Outcome::Err { len, leaves }, Some(e))
+            // reading the returned error (len, flatten, Display) is darling code too: a panic there is
+            // the parse's panic, not the harness's
+            let seen = {
+                let _g = InParse::enter();
+                catch_unwind(AssertUnwindSafe(|| observe_error(&e)))
+            };
+            match seen {
+                Ok((len, leaves)) => (Outcome::Err { len, leaves }, Some(e)),
+                Err(p) => match payload_outcome(p) {
+                    Outcome::Panic(m) => (Outcome::Panic(format!("while reading the returned error (len / flatten / Display): {}", m)), None),
+                    other => (other, None),
+                },
+            }
         }
         Err(p) => (payload_outcome(p), None),
     })
@@ -254,8 +284,19 @@ fn execute(sc: &Scenario, di: &syn::DeriveInput) -> Result<(Outcome, Option<darl
         Ok(None) => return Err(format!("unknown receiver {}", sc.receiver)),
         Ok(Some(Ok(v))) => (Outcome::Ok(v), None),
         Ok(Some(Err(e))) => {
-            let (len, leaves) = observe_error(&e);
-            (Outcome::Err { len, leaves }, Some(e))
+            // reading the returned error (len, flatten, Display) is darling code too: a panic there is
+            // the parse's panic, not the harness's
+            let seen = {
+                let _g = InParse::enter();
+                catch_unwind(AssertUnwindSafe(|| observe_error(&e)))
+            };
+            match seen {
+                Ok((len, leaves)) => (Outcome::Err { len, leaves }, Some(e)),
+                Err(p) => match payload_outcome(p) {
+                    Outcome::Panic(m) => (Outcome::Panic(format!("while reading the returned error (len / flatten / Display): {}", m)), None),
+                    other => (other, None),
+                },
+            }
         }
         Err(p) => (payload_outcome(p), None),
     })
